@@ -243,6 +243,10 @@ def prop(spec, rec):
     )
     if mixed:
         labels.add("mixed_sign_with_phases")
+    if len(spec["stations"]) >= 2 and len({float(x["phase"]) for x in spec["stations"]}) == 1:
+        labels.add("single_angle_site")
+        if all(float(x["phase"]) == 0 for x in spec["stations"]):
+            labels.add("all_angles_zero")
     if len(spec["schedule"][0]) > 1024:
         labels.add("more_than_1024_periods")
     if len(spec["schedule"][0]) > 1:
@@ -275,11 +279,22 @@ def network_specs(draw, min_constraints=0):
     n = draw(st.integers(1, 6))
     ids = list(draw(st.permutations(NAMES)))[:n]
     stations = [{"id": i, "phase": draw(PHASE), "max": 1e9} for i in ids]
+    one_angle = n >= 2 and draw(st.integers(0, 5)) == 0
+    if one_angle:
+        # a single-phase site: every station on one angle (0 degrees in half of the cases); the
+        # phase-aware magnitude is then |sum a_i s_i| - differential (mixed-sign) rows cancel
+        ang = draw(st.sampled_from([0.0, 0.0, 0, 30.0, -90.0, 180.0]))
+        for stn in stations:
+            stn["phase"] = ang
     m = max(min_constraints, draw(st.sampled_from([0, 1, 1, 2, 2, 3, 3, 4, 5])))
     constraints = []
     for j in range(m):
-        members = draw(st.lists(st.sampled_from(ids), min_size=1, max_size=n, unique=True))
+        members = draw(st.lists(st.sampled_from(ids), min_size=2 if one_angle else 1, max_size=n, unique=True))
         coeffs = {i: draw(COEF) for i in members}
+        if one_angle and j == 0:
+            # the first row of a single-phase site is a differential one
+            k0, k1 = members[0], members[1]
+            coeffs[k0], coeffs[k1] = abs(coeffs[k0]), -abs(coeffs[k1])
         limit = draw(st.one_of(st.sampled_from([10.0, 32.0, 80.0, 100.0, 420.0]), st.floats(0.5, 500).map(lambda x: round(x, 3))))
         constraints.append({"name": "con%d" % j, "limit": limit, "coeffs": coeffs})
     return {"stations": stations, "constraints": constraints, "net_vtol": draw(VTOL), "net_rtol": draw(RTOL)}
@@ -314,7 +329,9 @@ def cases(draw):
     if not any(direction):
         direction[draw(st.integers(0, n - 1))] = 1.0
     fr = _frontier_scale(ns, direction, vt, rt, aim_linear) if ns["constraints"] else None
-    mode = draw(st.sampled_from(["boundary", "boundary", "boundary", "boundary", "random", "signed", "permuted", "whole"] + (["long"] if draw(st.integers(0, 4)) == 0 else [])))
+    mode = draw(st.sampled_from(["boundary", "boundary", "boundary", "boundary", "random", "signed", "permuted", "whole"]))
+    if draw(st.sampled_from([False] * 15 + [True])):
+        mode = "long"
     if mode == "signed":
         # currents of both signs (a station feeding back): cancellations inside |.| matter
         sched = [[draw(st.one_of(st.just(0.0), st.floats(-64, 64).map(lambda x: round(x, 3)), st.sampled_from([12.0, -12.0, 32.0, -32.0]))) for _ in range(T)] for _ in range(n)]
@@ -348,8 +365,12 @@ def cases(draw):
         lo = [s0 * 0.5 * direction[i] for i in range(n)]
         sched = [[lo[i]] * T for i in range(n)]
         spots = [T - 1, T - 1 - draw(st.integers(0, 200)), draw(st.integers(0, T - 1))]
+        tail_only = draw(st.booleans())
         for t in spots:
             delta = draw(st.sampled_from([3 * tol, -3 * tol, 1e-3 * c["limit"], -1e-3 * c["limit"], 0.5 * c["limit"]]))
+            if tail_only:
+                # the only overload of the whole horizon sits in its very last period
+                delta = abs(delta) if t == T - 1 else -abs(delta)
             sc_ = max(0.0, (c["limit"] + tol + delta) / g)
             for i in range(n):
                 sched[i][t] = sc_ * direction[i]
